@@ -83,6 +83,8 @@ type G struct {
 	enums    []*Enum
 	tags     []*Tag
 	pathDefs map[string]bool // prefix|param already described by some Path
+	paths    []string        // the paths generated so far
+	pathBias bool            // path variables are mostly described through user types
 	trie     map[string]string
 	ids      map[string]bool // interaction ids
 	opIDs    int
@@ -267,7 +269,27 @@ func (g *G) genBody(refs []*Type) *Body {
 }
 
 func (g *G) genPath() string {
+	p := g.genPath1()
+	g.paths = append(g.paths, p)
+	return p
+}
+
+func (g *G) genPath1() string {
 	r := g.R
+	if len(g.paths) > 0 && chance(r, 1, 4) {
+		// a shorter sibling of an earlier path: the prefix that ends with one of its parameters (the two resources then
+		// share path variables, and one Path directive may describe them for both)
+		segs := strings.Split(strings.TrimPrefix(pick(r, g.paths), "/"), "/")
+		var cuts []int
+		for i, sg := range segs[:len(segs)-1] {
+			if strings.HasPrefix(sg, "{") {
+				cuts = append(cuts, i+1)
+			}
+		}
+		if len(cuts) > 0 {
+			return "/" + strings.Join(segs[:pick(r, cuts)], "/")
+		}
+	}
 	// random walk in the prefix trie: at each prefix at most one parameter name
 	n := 1 + r.Intn(3)
 	if chance(r, 1, 6) {
@@ -338,7 +360,7 @@ func (g *G) genPathSchema(path string) *Schema {
 				s = &Schema{Kind: kind, Lit: v.Lit, Str: v.SVal, Rules: []Rule{{"enum", e.Name, "reference", e.Name}}}
 			}
 		}
-		if chance(r, 1, 5) {
+		if chance(r, 1, 3) || g.pathBias && chance(r, 1, 2) {
 			// a path variable typed by a user type whose value is a scalar
 			var cands []*Type
 			for _, t := range g.types {
@@ -351,6 +373,23 @@ func (g *G) genPathSchema(path string) *Schema {
 			}
 			if len(cands) > 0 {
 				s = &Schema{Kind: "ref", Ref: pick(r, cands).Name}
+				// ... or by one of two such types; regex types qualify as well
+				var rx []*Type
+				for _, t := range g.types {
+					if t.Notation == "regex" {
+						rx = append(rx, t)
+					}
+				}
+				a, b := pick(r, cands), pick(r, append(cands, rx...))
+				if len(rx) > 0 && chance(r, 1, 2) {
+					b = pick(r, rx)
+				}
+				if a != b && chance(r, 2, 3) {
+					if chance(r, 1, 2) {
+						a, b = b, a
+					}
+					s = &Schema{Kind: "or", Or: []string{a.Name, b.Name}}
+				}
 			}
 		}
 		if chance(r, 1, 3) {
@@ -495,35 +534,92 @@ func (g *G) genResource() *Resource {
 			g.ids["url "+path] = true
 			return res
 		}
-		res := &Resource{Path: path, Grouped: chance(r, 1, 2)}
-		if res.Grouped {
-			if g.ids["url "+path] {
-				res.Grouped = false
-			} else {
-				g.ids["url "+path] = true
-				res.Tags = g.tagRefs()
-				if chance(r, 1, 2) {
-					res.PathSchema = g.genPathSchema(path)
-				}
-			}
+		if res := g.httpResourceAt(path); res != nil {
+			return res
 		}
-		n := 1 + r.Intn(3)
-		verbs := []string{"GET", "POST", "PUT", "PATCH", "DELETE"}
-		for i := 0; i < n; i++ {
-			v := pick(r, verbs)
-			id := "http " + v + " " + path
-			if g.ids[id] {
-				continue
-			}
-			g.ids[id] = true
-			res.Methods = append(res.Methods, g.genHTTPMethod(v, path, true))
-		}
-		if len(res.Methods) == 0 {
-			continue
-		}
-		return res
 	}
 	return nil
+}
+
+// httpResourceAt: a URL group or stand-alone methods on the given path (nil if every method drawn exists already).
+func (g *G) httpResourceAt(path string) *Resource {
+	r := g.R
+	res := &Resource{Path: path, Grouped: chance(r, 1, 2)}
+	if res.Grouped {
+		if g.ids["url "+path] {
+			res.Grouped = false
+		} else {
+			g.ids["url "+path] = true
+			res.Tags = g.tagRefs()
+			if chance(r, 1, 2) {
+				res.PathSchema = g.genPathSchema(path)
+			}
+		}
+	}
+	n := 1 + r.Intn(3)
+	verbs := []string{"GET", "POST", "PUT", "PATCH", "DELETE"}
+	for i := 0; i < n; i++ {
+		v := pick(r, verbs)
+		id := "http " + v + " " + path
+		if g.ids[id] {
+			continue
+		}
+		g.ids[id] = true
+		res.Methods = append(res.Methods, g.genHTTPMethod(v, path, true))
+	}
+	if len(res.Methods) == 0 {
+		return nil
+	}
+	return res
+}
+
+// GenPathSharing generates a small valid model made for one purpose: two or three resources on nested paths
+// (/s/{a}, /s/{a}/t/{b}, /s/{a}/t/{b}/u/{c}, in any order) that share path variables, which the Path directive of any of
+// them may describe - as a scalar, by a scalar or regex user type, by one of two such types, by an ENUM.
+func GenPathSharing(r Rnd) *Doc {
+	g := &G{R: r, Doc: &Doc{}, pathDefs: map[string]bool{}, trie: map[string]string{}, ids: map[string]bool{}, pathBias: true}
+	var blocks []*Block
+	if chance(r, 1, 2) {
+		e := g.genEnum(0)
+		g.enums = append(g.enums, e)
+		blocks = append(blocks, &Block{Enum: e})
+	}
+	add := func(t *Type) {
+		t.Name = fmt.Sprintf("@t%d", len(g.types))
+		g.types = append(g.types, t)
+		g.refable = append(g.refable, t)
+		blocks = append(blocks, &Block{Type: t})
+	}
+	add(&Type{Notation: "jsight", Schema: &Schema{Kind: "int", Lit: "12"}})
+	if chance(r, 1, 2) {
+		add(&Type{Notation: "jsight", Schema: &Schema{Kind: "str", Lit: `"abc"`, Str: "abc"}})
+	}
+	add(&Type{Notation: "regex", Pattern: pick(r, regexPatterns)})
+	if chance(r, 1, 3) {
+		add(&Type{Notation: "regex", Pattern: pick(r, regexPatterns)})
+	}
+	full := []string{"s", "{a}", "t", "{b}", "u", "{c}"}
+	cuts := []int{2, 4, 6}
+	// a random order of two or three of the prefixes
+	for i := len(cuts) - 1; i > 0; i-- {
+		j := r.Intn(i + 1)
+		cuts[i], cuts[j] = cuts[j], cuts[i]
+	}
+	for _, c := range cuts[:2+r.Intn(2)] {
+		if res := g.httpResourceAt("/" + strings.Join(full[:c], "/")); res != nil {
+			blocks = append(blocks, &Block{Resource: res})
+		}
+	}
+	// the declarations may come before or after the resources
+	if chance(r, 1, 2) {
+		k := len(blocks) - 1
+		for k >= 0 && blocks[k].Resource != nil {
+			k--
+		}
+		blocks = append(append([]*Block(nil), blocks[k+1:]...), blocks[:k+1]...)
+	}
+	g.Doc.Blocks = blocks
+	return g.Doc
 }
 
 func (g *G) genEnum(i int) *Enum {
